@@ -327,7 +327,10 @@ def finish(pid, tier, seed, t0, spec, proof, workers, corr, extra_cov=None, buil
                 known_hits[k["id"]] = k
             else:
                 new_violations.append(v)
-    crashed = [(tag, r) for tag, r in workers.items() if r.get("status") != "ok"]
+    crashed = [(tag, r) for tag, r in workers.items() if r.get("status") != "ok" or r.get("tie_breaks")]
+    for tag, r in workers.items():
+        if r.get("tie_breaks") and not r.get("error"):
+            r["error"] = "reference validation failed: " + "; ".join(r["tie_breaks"][:5])
     lines = []
     exit_code = 0
     for k in known_hits.values():
